@@ -24,19 +24,31 @@
              and no timing tolerance exists.  Chains are asked on ONE ChainStorage (the hook
              manager's), like CSearch shared.  P judges every request by P_search and - when the
              settings allow every hook to run at all (Spec.settings_in_domain) - by P_handler.
+   CParams:  one rule set registered by real hooks whose conversion bindings carry the further
+             documented parameters (`group`, `includeSnapshotsFrom`) and that have `kubernetes` /
+             `schedule` bindings beside them (hooks : list hookcfg, in the hook manager's order; [rules]
+             is the same rule set in the order of the input), one ConversionReview; observed: the chain,
+             per hook execution WHICH hook ran and WHAT IT READ in $BINDING_CONTEXT_PATH field by field
+             (binding, type, keys of snapshots, groupName, fromVersion/toVersion, review.request.objects:
+             C15_BindModel.rendered), and the answer.  Compared with C15_BindModel.serve_params
+             (snapshot keys as a set: a JSON object), judged by P_search and C15_BindSpec.P_params:
+             every executed hook read the conversion request of its step.
    CCrash:   the implementation panicked / the harness could not observe.
 
    Because Go iterates maps, WHICH valid chain is returned is not determined: chains are
    never compared, Coq judges them (Spec.valid_chain / Spec.reachable).  What is compared
    with the model is found / not found, and — given the implementation's chain — the
    complete run of the handler. *)
-From Verif Require Import Common C15_Model C15_Spec.
+From Coq Require Import String.
+From Verif Require Import Common C15_Model C15_Spec C15_BindModel C15_BindSpec.
 
 Inductive case :=
 | CSearch (rules : list rule) (shared : bool) (qs : list rule) (answers : list (option (list rule)))
 | CHandler (rules : list rule) (src desired : version) (dtext : bytes) (chain : option (list rule))
            (req : list obj) (outs : list outcome) (trace : list invocation) (ans : review)
 | CSession (rules : list rule) (owners : list N) (hsets : list (option hsettings)) (reqs : list sreq)
+| CParams (rules : list rule) (hooks : list hookcfg) (src desired : version) (dtext : bytes)
+          (chain : option (list rule)) (req : list obj) (outs : list outcome) (trace : list delivery) (ans : review)
 | CCrash
 with sreq :=
 | SReq (src desired : version) (dtext : bytes) (chain : option (list rule))
@@ -46,6 +58,7 @@ Inductive mobs :=
 | MSearch (found : list bool)
 | MHandler (found : bool) (trace : list invocation) (ans : review)
 | MSession (found : list bool) (res : list (list invocation * review))
+| MParams (found : bool) (trace : list delivery) (ans : review)
 | MCrash.
 
 Definition is_some {A} (o : option A) : bool := match o with Some _ => true | None => false end.
@@ -57,6 +70,9 @@ Definition sreq_squery (q : sreq) : squery :=
 Definition sreq_found (q : sreq) : bool := match q with SReq _ _ _ chain _ _ _ _ => is_some chain end.
 Definition sreq_seen (q : sreq) : list invocation * review := match q with SReq _ _ _ _ _ _ trace ans => (trace, ans) end.
 
+(* the CRD of every generated configuration (quoted by the "no hook found" error) *)
+Definition crd_name : bytes := str "crontabs.stable.example.com".
+
 Definition model_obs (c : case) : mobs :=
   match c with
   | CSearch rules shared qs _ =>
@@ -67,6 +83,9 @@ Definition model_obs (c : case) : mobs :=
   | CSession rules owners hsets reqs =>
     MSession (map is_some (find_shared rules (base_cache rules) (map sreq_query reqs)))
              (serve_session rules owners (initial_limiters hsets, []) (map sreq_squery reqs))
+  | CParams rules hooks src desired dtext chain req outs _ _ =>
+    let '(t, a) := serve_params crd_name hooks dtext desired (chain_of chain) outs req in
+    MParams (is_some (snd (find rules (base_cache rules) (src, desired)))) t a
   | CCrash => MCrash
   end.
 
@@ -81,6 +100,24 @@ Definition answer_eqb (a b : review) : bool :=
 Definition seen_eqb (a b : list invocation * review) : bool :=
   list_eqb inv_eqb (fst a) (fst b) && answer_eqb (snd a) (snd b).
 
+(* a JSON object's keys are a set *)
+Definition set_eqb (a b : list N) : bool := forallb (fun x => mem_N x b) a && forallb (fun x => mem_N x a) b.
+Definition rtype_eqb (a b : rtype) : bool :=
+  match a, b with
+  | RtAbsent, RtAbsent | RtValidating, RtValidating | RtMutating, RtMutating | RtConversion, RtConversion
+  | RtGroup, RtGroup | RtSchedule, RtSchedule | RtKubernetes, RtKubernetes => true
+  | _, _ => false
+  end.
+Definition rendered_eqb (a b : rendered) : bool :=
+  N.eqb (r_binding a) (r_binding b) && rtype_eqb (r_type a) (r_type b)
+  && option_eqb set_eqb (r_snapshots a) (r_snapshots b) && option_eqb N.eqb (r_group a) (r_group b)
+  && option_eqb rule_eqb (r_versions a) (r_versions b) && option_eqb objs_eqb (r_review a) (r_review b).
+Definition delivery_eqb (a b : delivery) : bool := N.eqb (fst a) (fst b) && rendered_eqb (snd a) (snd b).
+
+(* the two descriptions of the configuration name the same rules *)
+Definition same_rules (rules : list rule) (hooks : list hookcfg) : bool :=
+  forallb (declared rules) (hooks_rules hooks) && forallb (declared (hooks_rules hooks)) rules.
+
 Definition agrees (c : case) : bool :=
   match c, model_obs c with
   | CSearch _ _ _ answers, MSearch found => list_eqb Bool.eqb found (map is_some answers)
@@ -88,6 +125,8 @@ Definition agrees (c : case) : bool :=
     Bool.eqb found (is_some chain) && list_eqb inv_eqb t trace && answer_eqb a ans
   | CSession _ _ _ reqs, MSession found res =>
     list_eqb Bool.eqb found (map sreq_found reqs) && list_eqb seen_eqb res (map sreq_seen reqs)
+  | CParams rules hooks _ _ _ chain _ _ trace ans, MParams found t a =>
+    same_rules rules hooks && Bool.eqb found (is_some chain) && list_eqb delivery_eqb t trace && answer_eqb a ans
   | _, _ => false
   end.
 
@@ -99,6 +138,8 @@ Definition P (c : case) : bool :=
   | CSession rules _ hsets reqs =>
     forallb (fun q => match q with SReq src desired _ chain _ _ _ _ => P_search rules src desired chain end) reqs
     && (if settings_in_domain hsets then all_P_session (map sreq_squery reqs) (map sreq_seen reqs) else true)
+  | CParams rules hooks src desired _ chain req outs trace ans =>
+    P_search rules src desired chain && P_params hooks desired (chain_of chain) outs req trace ans
   | CCrash => false
   end.
 
@@ -133,6 +174,22 @@ Definition SQ (src desired : N) (dtext : bytes) (chain : list N) (req : list obj
 Definition CSS (rules : list rule) (owners : list N) (hsets : list (option hsettings))
            (qs : list (list rule -> sreq)) : case :=
   CSession rules owners hsets (map (fun f => f rules) qs).
+
+(* params notation: a group is a number, 0 = no group; the type of a binding context is a code *)
+Definition og (g : N) : option N := if N.eqb g 0 then None else Some g.
+Definition GB (name g : N) : gbinding := (name, og g).
+Definition CB (name g : N) (incl : list N) (rs : list rule) : cbinding := mkCB name (og g) incl rs.
+Definition HK (kube sched : list gbinding) (conv : list cbinding) : hookcfg := mkHook kube sched conv.
+Definition rt (c : N) : rtype :=
+  match c with
+  | 0 => RtAbsent | 1 => RtValidating | 2 => RtMutating | 3 => RtConversion | 4 => RtGroup | 5 => RtSchedule
+  | _ => RtKubernetes
+  end%N.
+Definition RC (h binding ty : N) (snaps : option (list N)) (g : N) (vers : option rule) (review : option (list obj)) : delivery :=
+  (h, mkR binding (rt ty) snaps (og g) vers review).
+Definition CP (rules : list rule) (hooks : list hookcfg) (src desired : N) (dtext : bytes) (chain : list N)
+           (req : list obj) (outs : list outcome) (trace : list delivery) (ans : review) : case :=
+  CParams rules hooks (v src) (v desired) dtext (chain_at rules chain) req outs trace ans.
 
 Definition mismatches (cs : list case) : list N := indices_where (fun c => negb (agrees c)) cs.
 Definition spec_violations (cs : list case) : list N := indices_where (fun c => negb (P c)) cs.
